@@ -108,6 +108,8 @@ def run(rep, tier):
         ('NAME-temporary', 'temporaries sharing a scope with user names start with an underscore'),
         ('NAME-bare-read', 'emitted code and runtime read no global/builtin by a bare name a user may define'),
         ('NAME-class-body', 'generated class bodies reserve no user-space names'),
+        ('NAME-keyword-prefix', 'the metagrammar matches keywords as whole words, never as bare literals that are '
+                                'prefixes of user identifiers'),
         ('NAME-keyword-capture', 'user keyword names are never passed as Python keywords to a function with '
                                  'user-space parameter names of its own'),
         ('INTERCEPT-table', 'no user-space name is intercepted before user templates'),
@@ -203,6 +205,41 @@ def run(rep, tier):
     rep.count('call sites that spread user keyword names into a module function', nkw)
     # the one sanctioned spread: _ParseFunction.__call__ -> rule function, whose own parameters are
     # the underscore-prefixed convention prefix (checked by CONV-prefix / ADAPTOR under C06)
+    # (ii-c) the metagrammar itself: a keyword matched as a bare literal (no word boundary) splits a
+    # user identifier that merely starts with it (`letter` -> `let ter`, `Nonempty` -> `None` `empty`)
+    nlit = 0
+    for m in mods:
+        if not isinstance(m, modroute.Emitted) or getattr(m, 'route', '') != 'shipped-parser':
+            continue
+        for fname, fn in m.functions.items():
+            if not fname.startswith('_try_'):
+                continue
+            consts = {}
+            for n in ast.walk(fn):
+                if isinstance(n, ast.Assign) and len(n.targets) == 1 and isinstance(n.targets[0], ast.Name) \
+                        and isinstance(n.value, ast.Constant) and isinstance(n.value.value, str):
+                    consts[n.targets[0].id] = n.value.value
+            for n in ast.walk(fn):
+                if not (isinstance(n, ast.Compare) and len(n.ops) == 1 and isinstance(n.ops[0], ast.Eq)):
+                    continue
+                sides = [n.left, n.comparators[0]]
+                if not any(isinstance(x, ast.Subscript) and isinstance(x.value, ast.Name) and x.value.id == '_text'
+                           for x in sides):
+                    continue
+                for x in sides:
+                    lit = x.value if isinstance(x, ast.Constant) else consts.get(x.id) if isinstance(x, ast.Name) else None
+                    if isinstance(lit, str):
+                        nlit += 1
+                        rep.oblige(not lit.isidentifier())
+                        if lit.isidentifier():
+                            rep.add(Finding('NAME-keyword-prefix', 'grammar.txt (sourcer/parser.py)', lit,
+                                            f'the metagrammar matches the keyword `{lit}` as a bare literal in '
+                                            f'{fname[5:]}: a user identifier that starts with it is split '
+                                            f'(`{lit}ter` is read as `{lit}` followed by `ter`); keywords must be '
+                                            f'matched as whole words (kw("{lit}"))',
+                                            f'sourcer/parser.py:{fname}'))
+    rep.count('string literals matched by the shipped metagrammar parser', nlit)
+    rep.floor('string literals matched by the shipped metagrammar parser', nlit, 40)
     # (iii) class bodies: the generated __init__(self, <fields>) and the class attributes
     reserved = set()
     for m in mods:
